@@ -47,7 +47,17 @@ func (c *Ctx) Pick(q, t int) int {
 
 // Explorer returns an explorer wired to this worker's shard and deadline.
 func (c *Ctx) Explorer(maxDev int) *explore.Explorer {
-	return &explore.Explorer{MaxDev: maxDev, Shard: c.Shard, NShards: c.NShards, ShardLevel: 1, Deadline: c.Deadline}
+	e := &explore.Explorer{MaxDev: maxDev, Shard: c.Shard, NShards: c.NShards, ShardLevel: 1, Deadline: c.Deadline}
+	if ch := Registry[c.Property]; ch != nil && !ch.Race {
+		// sequential checks build every execution from fresh objects and own every choice:
+		// the same choices giving other observations means library state leaked across
+		// executions (a request's outcome depends on earlier requests in the process)
+		e.OnDiverge = func(trace []int, what string) {
+			c.Mismatch("", "same case, other observations", fmt.Sprintf("the same case executed twice in this process is observed differently (state of the library outlives a request): %s", what),
+				map[string]interface{}{"choices": trace, "divergence": true})
+		}
+	}
+	return e
 }
 
 // Absorb adds an explorer's statistics to the report.
